@@ -1437,10 +1437,13 @@ def _set_default_constants(**kwargs):
         constants[Constants.IMPROVE_TCG]
     )
 
-    # Check whether they are any unknown options.
+    # Check whether they are any unknown options. They are ignored: the
+    # constants are forwarded as keyword arguments to the subproblem solvers,
+    # and an unknown name must not collide with one of their parameters.
     for key in kwargs:
         if key not in Constants.__members__.values():
             warnings.warn(f"Unknown constant: {key}.", RuntimeWarning, 3)
+            del constants[key]
     return constants
 
 
